@@ -2,6 +2,8 @@
 extern crate core;
 
 pub use compiler::App;
+#[cfg(pavex_verif)]
+pub use compiler::verif_domain_guard;
 pub use diagnostic::DiagnosticSink;
 pub use persistence::AppWriter;
 
